@@ -322,6 +322,20 @@ def trxcon_hostile(ctx, rounds):
                     dead = True
                     break
                 if rr["q"] == 0:
+                    # stray / duplicated responses while nothing is in flight (e.g. a duplicate of the last reply)
+                    for _ in range(rng.choice([0, 1, 1, 2])):
+                        kind2, raw2 = rng.choice([("duplicate", raw), hostile_rsp(rng, head)])
+                        r2 = tc.rsp(raw2)
+                        nrsp += 1
+                        if r2 is None:
+                            ctx.violation("C14/memory/trxcon-ctrl/stray-response-with-empty-queue",
+                                          "trx_if.c died reading a TRXC datagram while no command was in flight (%s, rc=%s)" % (kind2, tc.crashed[0]),
+                                          dict(text=raw2[:120].decode("latin1"), previous_command=head.decode("latin1"), stderr=tc.crashed[1]))
+                            break
+                        cev.append(dict(e="rsp", raw=list(raw2), status=status(r2), sent=r2["sent"], dbm=[], accept=False, kind="stray-" + kind2))
+                        if r2["term"]:
+                            dead = True
+                            break
                     break
                 if rr["sent"]:
                     head = bytes(rr["sent"][0])
